@@ -11,6 +11,8 @@ package mc
 
 import (
 	"bytes"
+	"strings"
+	"syscall"
 	"encoding/binary"
 	"encoding/json"
 	"fmt"
@@ -61,6 +63,9 @@ type Run struct {
 	deadline     time.Time
 	hangs        []Hang
 	guardCalls   int
+	// SpinFails: a watchdog expiry during which the process burns CPU is a violation
+	// ("busy-loop|..."), not just an inconclusive hang (checks whose property forbids busy loops)
+	SpinFails bool
 	memLimit     uint64 // bytes; 0 = never recycle
 	recycled     bool
 	inMemo       bool
@@ -356,11 +361,24 @@ func (r *Run) Guard(idx int, limit time.Duration, fingerprint, what string, c an
 		select {
 		case <-done:
 		case <-time.After(limit):
+			if r.SpinFails {
+				// is something spinning? a goroutine that loops without ever blocking keeps the bubble from
+				// becoming quiescent and burns a core; a wait the bubble does not understand burns nothing
+				c0 := cpuSeconds()
+				time.Sleep(2 * time.Second)
+				if used := cpuSeconds() - c0; used > 1.5 {
+					r.Fail("busy-loop|"+strings.TrimPrefix(fingerprint, "hang|"), fmt.Sprintf("%s: the execution never became quiescent within %v of real time and the process keeps burning %.1f cores: some goroutine is looping without blocking", what, limit, used/2), 0, c)
+				}
+			}
 			r.mu.Lock()
 			r.hangs = append(r.hangs, Hang{Index: idx, Fingerprint: fingerprint, What: what, Case: c})
 			r.nextIndex = idx + 1
 			r.exhaustive = false
 			r.mu.Unlock()
+			if r.Replay != nil {
+				r.flush(true)
+				os.Exit(0)
+			}
 			r.flush(false)
 			os.Exit(3)
 		}
@@ -475,4 +493,13 @@ func (r *Run) Bail(idx int) {
 	r.mu.Unlock()
 	r.flush(false)
 	os.Exit(3)
+}
+
+// cpuSeconds is the CPU time (user + system) this process has used so far.
+func cpuSeconds() float64 {
+	var ru syscall.Rusage
+	if syscall.Getrusage(syscall.RUSAGE_SELF, &ru) != nil {
+		return 0
+	}
+	return float64(ru.Utime.Sec+ru.Stime.Sec) + float64(ru.Utime.Usec+ru.Stime.Usec)/1e6
 }
